@@ -68,13 +68,15 @@ enum Cause : std::uint64_t
   Stop,
   IcmpRefused,
   BadListener,
+  TlsFailure,
+  HandshakeTimeout,
   kCauseMax
 };
 inline const char *causeName(std::uint64_t c)
 {
   static const char *n[] = {"?",          "app-close",    "peer-fin",     "peer-rst", "refused",
                             "unresolvable", "connect-timeout", "backpressure", "idle-gc",  "stop",
-                            "icmp-refused", "bad-listener"};
+                            "icmp-refused", "bad-listener", "tls-failure", "tls-handshake-timeout"};
   return c < kCauseMax ? n[c] : "?";
 }
 
@@ -179,6 +181,7 @@ inline std::string render(const std::vector<Event> &ev, std::size_t maxEvents = 
     auto &e = ev[i];
     s += std::to_string(i) + ":" + kname(e.k) + (e.io ? "*" : "") + " s" + std::to_string(e.sid);
     if (e.k == K::Cause) s += std::string(" ") + causeName(e.a);
+    else if (e.k == K::CloseBegin) s += " code" + std::to_string(e.a);
     else if (e.k == K::Observer || e.k == K::Cleanup || e.k == K::ObsBegin || e.k == K::ObsEnd ||
              e.k == K::UnobsBegin || e.k == K::UnobsEnd || e.k == K::DataBegin || e.k == K::DataEnd)
       s += " t" + std::to_string(e.a);
